@@ -141,10 +141,17 @@ def _chunk(task):
     d = pd.DataFrame({"y": rng.normal(size=N), "a": rng.uniform(1, 2, N), "b": rng.uniform(1, 2, N), "c": rng.uniform(1, 2, N)})
     env = {"a": d["a"], "b": d["b"], "c": d["c"], "h": h, "rec": rec, "I": lambda v: v}
     res = []
+    cases = []
     for _ in range(count):
         form, e1, e2 = build_case(rnd)
         messy, canon = texts(form, e1, e2, rnd)
-        cls = e1.classes() | (e2.classes() if form == "rec" else set())
+        cases.append((form, messy, canon, e1.classes() | (e2.classes() if form == "rec" else set())))
+    if seed % 1000 == 0:
+        # integer literals that no double represents must be read exactly (kept out of the random chains: a ** of them never ends)
+        for big in ("9007199254740993", "12345678901234567891"):
+            cases += [("I", f"I(a + {big})", f"I(a + {big})", set()), ("I", f"I( {big}*b )", f"I({big} * b)", set()),
+                      ("rec", f"rec(a, 0.5, k={big}, s='x y')", f"rec(a, 0.5, k={big}, s='x y')", set())]
+    for form, messy, canon, cls in cases:
         pytext = messy[1:-1] if form == "brace" else messy
         try:
             CALLS.clear()
@@ -190,7 +197,8 @@ IDENTITY_CASES = [
     ("y ~ 0 + rec(a, k=2) + rec( a ,k = 2 )", 1), ("y ~ 0 + rec(a, k=2) + rec(a, k=3)", 2), ("y ~ 0 + rec(a, k=b) + rec(a, k=c)", 2),
     ("y ~ 0 + rec(a, s='u') + rec(a, s='v')", 2), ("y ~ 0 + rec(a, s='u') + rec(a, s=\"u\")", 2), ("y ~ 0 + h(a) + h( a )", 1),
     ("y ~ 0 + rec(a, k=2, s='u') + rec(a, k=2, s='u')", 1), ("y ~ 0 + rec(a + b) + rec(a+b)", 1),
-    ("y ~ 0 + rec(a, k=1):rec(a, k=2)", 1), ("y ~ 0 + {a + 1} + I(a + 1)", 1), ("y ~ 0 + rec(a, k=h(b)) + rec(a, k=h(c))", 2),
+    ("y ~ 0 + rec(a, k=1):rec(a, k=2)", 1), ("y ~ 0 + rec(a, k=9007199254740993) + rec(a, k=9007199254740992)", 2),
+    ("y ~ 0 + rec(a, k=+b) + rec(a, k=b)", 2), ("y ~ 0 + {a + 1} + I(a + 1)", 1), ("y ~ 0 + rec(a, k=h(b)) + rec(a, k=h(c))", 2),
 ]
 
 
@@ -208,7 +216,10 @@ def PROOFS():
     from ..contracts import call_resolver_c
     R = "formulae.terms.call_resolver."
     return [("vf.contracts.call_resolver_c", [R + "LazyValue.eval"] + [R + c for c in (
-        "LazyValue.__eq__", "LazyCall.__eq__", "LazyOperator.__eq__", "LazyVariable.__eq__")])]
+        "LazyValue.__eq__", "LazyCall.__eq__", "LazyOperator.__eq__", "LazyVariable.__eq__")]),
+            # literal scanning: the literal of a NUMBER / STRING / PYTHON_LITERAL token is Python's reading of exactly its text
+            ("vf.contracts.scanner_c", ["formulae.scanner.Scanner." + f for f in ("add_token", "floatnum", "number", "identifier", "char")]),
+            ("vf.contracts.variable_c", ["formulae.terms.call.Call.__eq__", "formulae.terms.call.Call.__hash__"])]
 
 
 def run(report, findings):
